@@ -25,7 +25,7 @@ DSet(e) == Range(e.D)
 RECURSIVE TuplesDom(_, _)
 TuplesDom(fs, n) ==
     IF n = 0 THEN {<<>>}
-    ELSE {Append(s, v) : s \in TuplesDom(fs, n - 1), v \in 0..(fs[n].dom - 1)}
+    ELSE {Append(s, v) : s \in TuplesDom(fs, n - 1), v \in (0..(fs[n].dom - 1)) \cup (IF fs[n].nan THEN {NaN} ELSE {})}
 ValuesOf(P) ==
     UNION {{[v |-> vi, f |-> s] : s \in TuplesDom(P.variants[vi].fields, Len(P.variants[vi].fields))}
            : vi \in DOMAIN P.variants}
